@@ -10,7 +10,7 @@ import (
 	"strings"
 )
 
-var hostPool = []string{"a.test", "shop.example", "hop.example", "s.test", "x", "sx", "a.test1", "a.b.test", "b.test", "[::1]", "[2001:db8::1]", "127.0.0.1", "xn--nxasmq6b.test"}
+var hostPool = []string{"a.test", "shop.example", "hop.example", "s.test", "x", "sx", "a.test1", "a.b.test", "b.test", "[::1]", "[2001:db8::1]", "127.0.0.1", "xn--nxasmq6b.test", "%E9.test", "%C3%89.test"}
 var segPool = []string{"p", "P", "a", "ab", "a.b", "a-b", "~u", "a%2Fb", "a%2fb", "a%3Fb", "%C3%A9", "%E9", "a%20b", "a;b", "a:b", "a@b", "a=b", "80", "s"}
 var queryPool = []string{"", "x=1", "x=1&y=2", "y=2&x=1", "q=%7e", "q=~", "q=%E9", "q=%C3%A9", "q=a%2Fb", "q=a/b", "q=%3F", "q=?", "X=1", "x", "x=", "80", "q=\xe9", "q=caf\xe9&x=\xff"}
 
@@ -118,7 +118,7 @@ func (g *G) equivalentSpelling(u urlParts) string {
 		i := strings.Index(s, "://") + 3
 		j := strings.IndexByte(s[i:], '/')
 		if j >= 0 {
-			s = s[:i+j] + pick(g, "/.", "/zz/..", "/./.") + s[i+j:]
+			s = s[:i+j] + pick(g, "/.", "/zz/..", "/./.", "/%2e", "/zz/%2E%2e", "/zz/.%2E", "/%2E/.", "/zz/yy/../%2e%2e") + s[i+j:]
 		}
 	}
 	if g.chance(0.15) {
@@ -141,7 +141,7 @@ func (g *G) lookAlike(u urlParts) string {
 	v := u
 	v.segs = append([]string{}, u.segs...)
 	for tries := 0; tries < 8; tries++ {
-		switch g.r.Intn(14) {
+		switch g.r.Intn(16) {
 		case 0: // other scheme, same text otherwise
 			v.scheme = map[string]string{"http": "https", "https": "http"}[u.scheme]
 		case 1: // boundary shift scheme|host: http://sX  vs  https://X
@@ -214,6 +214,21 @@ func (g *G) lookAlike(u urlParts) string {
 			} else {
 				v.segs = []string{"80"}
 			}
+		case 14: // hosts that differ in a non-ASCII byte only (host case is ASCII case; bytes are bytes)
+			if strings.Contains(u.host, "%E9") {
+				v.host = strings.Replace(u.host, "%E9", pick(g, "%E8", "%C9"), 1)
+			} else if strings.Contains(u.host, "%C3%89") {
+				v.host = strings.Replace(u.host, "%C3%89", "%C3%A9", 1)
+			} else {
+				continue
+			}
+		case 15: // ".." above the root followed by an empty segment: "/..//a" is "//a", not "/a"
+			if len(u.segs) == 0 {
+				continue
+			}
+			w := u
+			w.segs = append([]string{pick(g, "..", "%2e%2E", "."), ""}, u.segs...)
+			return w.String()
 		case 13: // bracket placement of an IP literal
 			if strings.HasPrefix(u.host, "[") && u.port != "" {
 				v.host, v.port = u.host[:len(u.host)-1]+":"+u.port+"]", ""
